@@ -7,6 +7,8 @@ for d in sorted(glob.glob(os.path.join(os.path.dirname(os.path.dirname(os.path.a
     if not os.path.exists(mp):
         continue
     m = json.load(open(mp))
+    if not isinstance(m.get("results"), list):
+        continue  # the harmless rewrites: described in the text of DESIGN.md, not in this table
     res = "; ".join("%s %s%s" % (r["check"], "caught" if r["caught"] else "not caught (property unaffected or out of scope of that check)",
                                  (" [" + r["clause"] + "]") if r.get("clause") else "") for r in m["results"])
     note = ""
